@@ -639,7 +639,8 @@ func (g *wgen) buildChain(n int, tcSec int64, args []KV) *chain {
 		g.bounds(&none, &c.inv.Exp, tcSec)
 	}
 	c.inv.Iat = []string{"", "", "none", "past", "future", "zero", "epoch", "y2300"}[r.Intn(8)]
-	c.inv.NonceLen = []int{0, 0, 0, 12, 16, 32, 64, 255, 256, 70000}[r.Intn(10)]
+	c.inv.NonceLen = []int{0, 0, 0, 12, 16, 32, 64, 255, 256, 70000, -1}[r.Intn(11)]
+	c.inv.ArgsVia = Pick(r, []string{"", "", "args", "builder", "include", "split"})
 	c.inv.Meta = genMeta(r)
 	c.inv.Cause = r.Chance(0.2)
 	return c
